@@ -97,6 +97,16 @@ class SStr extends SV {         // chars: array of (number | SNum 'i'), concrete
   }
   get length() { if (this.chars.some(c => c instanceof NumSeg)) return unsupported('length of a string containing a formatted symbolic number'); return this.chars.length; }
   charCodeAt(i) { return RT.strCharCodeAt(this, i); }
+  codePointAt(i) {
+    i = i === undefined ? 0 : RT.concrete(i);
+    if (i < 0 || i >= this.chars.length) return undefined;
+    const hi = this.chars[i], lo = i + 1 < this.chars.length ? this.chars[i + 1] : null;
+    if (lo === null) return hi;
+    if (!isSym(hi) && !isSym(lo)) return String.fromCharCode(hi, lo).codePointAt(0);
+    const a = RT.asI(hi), b = RT.asI(lo);
+    if (!a || !b) return unsupported('codePointAt');
+    return RT.mkI({ t: '(ite (and (<= 55296 ' + a.t + ') (<= ' + a.t + ' 56319) (<= 56320 ' + b.t + ') (<= ' + b.t + ' 57343)) (+ (* (- ' + a.t + ' 55296) 1024) (- ' + b.t + ' 56320) 65536) ' + a.t + ')', lo: 0n, hi: 1114111n, tz: 0 });
+  }
   substring(a, b) { return RT.strSubstring(this, a, b); }
   slice(a, b) { return RT.strSubstring(this, a, b === undefined ? this.chars.length : b); }
   charAt(i) { const c = RT.strCharCodeAt(this, i); return new SStr([c]); }
@@ -701,7 +711,7 @@ const RT = {
   },
   sw(d, tests) {
     if (!isSym(d)) {
-      for (let i = 0; i < tests.length; i++) { const t = tests[i]; if (isSym(t) ? this.c(this.b('===', d, t)) : d === t) return i; }
+      for (let i = 0; i < tests.length; i++) { const t = tests[i]; if (isSym(t) ? this.c(this.b('===', d, t)) : (d === t || (typeof d === 'function' && typeof t === 'function' && shimPair(d, t)))) return i; }
       return -1;
     }
     for (let i = 0; i < tests.length; i++) if (this.c(this.b('===', d, tests[i]))) return i;
